@@ -46,8 +46,15 @@ def gen_pair(rng):
     funcs = {}
     kw = dict(profile="py", allow_end=False, advance_time=False, phase_plan=plan_, funcs=funcs,
               readonly_state=["<state>in"], max_ops=rng.choice([4, 6, 8]))
-    a = prog.Gen(rng, persist_tag="_a", components=["ya", "aux_a"], **kw).script()
-    b = prog.Gen(rng, persist_tag="_b", components=["yb", "aux_b"], **kw).script()
+    # sometimes one method's ordinary temporaries are named like the other's loop counters
+    cross = rng.random() < 0.35
+    kwa = dict(kw, counters=["c1", "c2", "c3"], extra_locals=["i", "j", "ii"]) if cross else kw
+    if rng.random() < 0.5:
+        a = prog.Gen(rng, persist_tag="_a", components=["ya", "aux_a"], **kwa).script()
+        b = prog.Gen(rng, persist_tag="_b", components=["yb", "aux_b"], **kw).script()
+    else:
+        a = prog.Gen(rng, persist_tag="_a", components=["ya", "aux_a"], **kw).script()
+        b = prog.Gen(rng, persist_tag="_b", components=["yb", "aux_b"], **kwa).script()
     for s in (a, b):
         s["run"] = {"max_steps": rng.randint(1, 3)}
         s["t0"], s["dt0"] = 0.5, 0.25
@@ -238,6 +245,9 @@ def structural(d1, d2, fused, pred, rec, wit):
             vars1 |= set(stmt_names(s))
         for s in s1 + s2:
             counters |= {i for i, _, _ in getattr(s, "loops", [])}
+        # only names that are loop counters and nothing else, in both methods, may stay shared
+        for s in s1 + s2:
+            counters -= set(s.get_written_variables())
         vars2 = set(rho)
         for v, w in sorted(rho.items()):
             clash = v in vars1
